@@ -257,7 +257,7 @@ MANIFEST_TEXT = {
                 "in text, reversed attribute order); run_spellElem / parseDoc_spell - the parser automaton reads EVERY such spelling of every acceptable element back as a specified element; "
                 "fromXml_spelled - that element is read by from_xml as the same message (constructors look keywords up by name; white space before the first child is swallowed - a decidable fact "
                 "about the regenerated class table); parseDoc_spell_prefix - no proper prefix of a spelling is a complete document; admissible_spelling; C02_spelled_stream - ANY stream of valid messages, "
-                "each in ANY spelling and preceded by ANY opener-free junk (declaration or not), under ANY fragmentation, is delivered exactly, in order, promptly. Tied to buffer.py by a differential correspondence in which the model runs with the table "
+                "each in ANY spelling and preceded by ANY opener-free junk (declaration or not), under ANY fragmentation, is delivered exactly, in order, promptly. CONNECTION level (Properties/C02b.lean): recv_fragmentation_independent_ops/_router/_wf - a served connection of the server model (Model/Conn.lean: receive loop, buffer, parser, router) that is sent the to_string() bytes of ANY list of valid messages cut into ANY reads hands the router exactly the same operations in the same order, and ends in the same server state, as for a single read (the state claim needs distinct connection ids - kernel-checked counterexample without). Tied to buffer.py by a differential correspondence in which the model runs with the table "
                 "of substrings the real parser accepts; oracle = Spec expectedCalls computed in Lean after checking StreamOk on the case.",
         "note": "Trusted: Lean kernel + standard axioms; the character-level model is tied to ElementTree/expat by the xml correspondence (ET.fromstring vs Xml.parseDoc on library output, five "
                 "foreign spellings, every truncation, grammar-based documents, mutations, word salad, every code-point class raw and as reference; ET.tostring vs Xml.serElem; Buffer with the real "
@@ -334,7 +334,7 @@ MANIFEST_TEXT = {
                 "and the metadata - and nothing else but delProperty notices for disabled properties), C07_emitted_valid (every message emitted by ANY operation is read back unchanged up to "
                 "normalisation by the model of the library's parser over the regenerated class table; number text validity is proved, not assumed). Correspondence on real drivers; oracles "
                 "c07Holds in Lean, the real parser's re-read compared by norm equality in Lean, and Spec.Dev.flagsHold: which groups and properties are enabled is what the driver's code last assigned - "
-                "a function of the operation history alone.",
+                "a function of the operation history alone; flags_follow_history (Properties/C07b.lean) proves that the driver model satisfies that specification after EVERY operation sequence on EVERY device (raising operations and out-of-range addresses included).",
         "note": "C07_emitted_valid carries two extra hypotheses found by the proof attempt: stored and incoming BLOB values have a format string (values.BLOB(b, None) makes the driver emit a "
                 "oneBLOB its own parser rejects; recorded in DESIGN.md as usage outside the property). The XML character level is C03's subject. Trusted: kernel, translator, harness.",
         "technique": "Lean 4 theorems over the driver model and the regenerated class table + differential correspondence with re-parse by the real library",
